@@ -61,6 +61,24 @@ CLAIMED = {
             "HSMCertificate.validate_and_get_values on real-key certificates and all single-point corruptions.",
             "partial: ECDSA/HMAC/SHA-256 are uninterpreted (unforgeability is not a theorem); key extraction and "
             "tweak wiring are checked by the independent oracle, not proved"),
+    "C07": ("The chain theorems of C06 (valid iff every link verifies, first failing element named, path-only "
+            "dependence) hold for version-2 certificates, which use the same walk; report-data offsets (320 in a "
+            "report body, 368 in a quote) are checked. The per-link conditions (X.509 validity window + issuer "
+            "signature, attestation-key and quote report-data bindings + certifier signature, P-256 only) are "
+            "the abstract linkValid, instantiated per case by an independent implementation that uses the two "
+            "crypto libraries the other way round than the code under test; compared with "
+            "HSMCertificateV2.validate_and_get_values on freshly generated chains and all corruption classes.",
+            "partial: cryptographic soundness is an assumption; per-link wiring is checked by the independent "
+            "oracle, not proved; `now` is the wall clock"),
+    "C08": ("Lean theorems about the decision functions of both verify commands: the powHSM message is accepted "
+            "only with its header and exactly header+115 bytes and its fields are the slices at the documented "
+            "offsets; the SGX command finishes without error only if (and if) the quote target is valid, the "
+            "message well-formed and its keys hash equals the operator's; the Ledger command finishes only if the "
+            "BTC path key is present and equals the UI-attested key at its offset, both targets are valid, and "
+            "the signer message (legacy: nothing after the hash; current: exact length) reports the operator's "
+            "keys hash; printed values are the slices. Tied to the real do_verify_attestation (files in a temp "
+            "dir, stdout parsed) by correspondence over genuine triples and the listed variants.",
+            "certificate verdicts come from the chain model + independent link table; SHA-256 uninterpreted"),
     "C09": ("Lean theorems: the version relation characterised for all naturals (same major, (minor, patch) "
             "lexicographically not newer) and equal to the property's relation; constants 5.4.1 / two retries as "
             "specified. The bring-up model (initialize_device, _handle_bootloader, PIN object, three platforms, "
